@@ -100,9 +100,75 @@ def gen_tie(rng):
         c["alpha"] = float(rng.choice(["2", "3", "4", "2", "5"]))
         c["r"] = c["sig"]
         c["rc"] = c["sig"]
-    else:
+    elif rng.random() < 0.5:
         c["r"] = c["rc"]
+    else:
+        # zero-valued parameters: the documented potential is identically zero (A = 0, ε = 0) or constant (n = 0)
+        z = rng.choice(["eps", "A", "n"] if c["model"] == "ipl" else ["eps"])
+        c[z] = rng.choice([0.0, 0, -0.0])
     return c
+
+
+def gen_object_history(rng):
+    """a call history on ONE PairInteractions object: its three methods (and the selector) in a random order, each judged
+    against the documented derivative — state written on the object by one method shows up in a later one"""
+    base = gen_case(rng)
+    base["model"] = "lj"
+    base["rc"] = float(common.dec(rng, 1.5, 3.5))
+    base["r"] = round(base["sig"] * rng.uniform(0.3, 0.95), 3) if rng.random() < 0.6 else float(common.dec(rng, 0.6, 3.0))
+    steps = []
+    for m in rng.sample(["lj", "ipl", "hh", "lj", "ipl"], rng.randint(2, 5)):
+        st = {"model": m, "via": rng.choice(["method", "caller"])}
+        if m == "ipl":
+            st["n"] = float(rng.choice(["12", "10", "4", "6.5"])); st["A"] = float(common.dec(rng, -2.0, 3.0))
+        if m == "hh":
+            st["alpha"] = float(rng.choice(["2", "3", "4", "2.5"]))
+        steps.append(st)
+    return {"object": {k: base[k] for k in ("r", "eps", "sig", "rc", "shift")}, "steps": steps}
+
+
+def check_object_history(h):
+    """returns (index, why) of the first call whose triple is not the documented derivative, or None"""
+    o = h["object"]
+    for i, st in enumerate(h["steps"]):
+        c = dict(o, **st)
+        if st["model"] == "hh":
+            # the harmonic/Hertz branch is documented for r < σ (non-integer α) — keep the call as history, judge it only there
+            judged = c["r"] < 0.97 * c["sig"] or float(c["alpha"]).is_integer()
+            c["rc"] = o["rc"]
+        else:
+            judged = True
+        pi = h.setdefault("_obj", None) or _mk(o["r"], o["eps"], o["sig"], o["rc"], o["shift"])
+        h["_obj"] = pi
+        try:
+            if st["via"] == "caller":
+                from PyMatterSim.static.hessians import InteractionParams, ModelName
+                mn = {"lj": ModelName.lennard_jones, "ipl": ModelName.inverse_power_law, "hh": ModelName.harmonic_hertz}[st["model"]]
+                real = pi.caller(InteractionParams(model_name=mn, ipl_n=st.get("n", 3.0), ipl_A=st.get("A", 7.0), harmonic_hertz_alpha=st.get("alpha", 9.0)))
+            elif st["model"] == "lj":
+                real = pi.lennard_jones()
+            elif st["model"] == "ipl":
+                real = pi.inverse_power_law(n=st["n"], A=st["A"])
+            else:
+                real = pi.harmonic_hertz(alpha=st["alpha"])
+            if not judged:
+                continue            # beyond contact with a non-integer exponent (complex power): only history
+            real = [float(x) for x in real]
+        except Exception as e:
+            if not judged:
+                continue
+            h.pop("_obj", None)
+            return i, f"{st['model']}: raised {type(e).__name__}: {e}"
+        if st["model"] == "hh":
+            ref = oracle(dict(c, rc=c["sig"]))          # documented: s'(r_c) = 0 for harmonic/Hertz
+        else:
+            ref = oracle(c)
+        for nm, a, b in zip(("s1", "s1rc", "s2"), real, ref):
+            if not common.close(a, b, 1e-9, 1e-12):
+                h.pop("_obj", None)
+                return i, f"{st['model']}.{nm}: returned {a!r} but derivative of documented potential is {b!r}"
+    h.pop("_obj", None)
+    return None
 
 
 def gen_history(rng):
@@ -178,7 +244,7 @@ def check_case(c, model_out=None):
 
 
 def correspond(run):
-    n = 300 if run.tier == "quick" else 20000
+    n = 1500 if run.tier == "quick" else 20000
     cases = common.load_corpus(PROP) + [gen_case(run.rng) for _ in range(n)]
     try:
         outs = common.drive([op_line(c) for c in cases])
@@ -213,6 +279,14 @@ def correspond(run):
         run.hist("stream", "history:%s:len%d" % (h[0]["model"], len(h)))
         run.count(("history", h), len(h) > 1)
         r = check_history(h)
+        if r:
+            hfail.append((h, r))
+    no = 80 if run.tier == "quick" else 3000
+    for _ in range(no):
+        h = gen_object_history(run.rng)
+        run.hist("stream", "object-history:len%d" % len(h["steps"]))
+        run.count(("object-history", h), True)
+        r = check_object_history(h)
         if r:
             hfail.append((h, r))
     run.coverage["programs"] = 9
@@ -255,15 +329,17 @@ def search(run, broken):
     for b in broken:
         hists += b.get("histories", [])
     hists += [gen_history(run.rng) for _ in range(1500)]
-    for h in hists:
-        r = check_history(h)
+    for h in hists + [gen_object_history(run.rng) for _ in range(1500)]:
+        r = check_object_history(h) if "steps" in h else check_history(h)
         if r:
             i, p = r
             # is it the history that matters?  the failing call alone, in this process, after the same prefix
             k = key_of(p) + ":history"
             if k not in found_models and key_of(p) not in found_models:
                 found_models.add(k)
-                run.violation(k, f"call {i} of a {len(h)}-call history in one process: {p}", {"history": h, "failing_call": i})
+                nn = len(h["steps"]) if isinstance(h, dict) else len(h)
+                where = "on one PairInteractions object" if isinstance(h, dict) else "in one process"
+                run.violation(k, f"call {i} of a {nn}-call history {where}: {p}", {"history": h, "failing_call": i})
     for _ in range(600):
         c = gen_tie(run.rng)
         _, p = check_case(c)
@@ -280,7 +356,8 @@ def search(run, broken):
 
 def replay(run, rp):
     if "history" in rp:
-        return check_history(rp["history"]) is not None
+        h = rp["history"]
+        return (check_object_history(h) if isinstance(h, dict) and "steps" in h else check_history(h)) is not None
     if "case" in rp:
         return bool(check_case(rp["case"])[1])
     return any(check_case(c)[1] for c in rp.get("cases", []))
